@@ -6,7 +6,7 @@ import math
 import numpy as np
 
 from . import gen
-from .sites_drive import hist_of
+from .sites_drive import hist_of, transitions
 
 N_DEFAULT = 64
 
@@ -192,8 +192,8 @@ def run_case(rec, traj, structure, kw, species='Li', rng=None):
     if rng is not None:
         gen.perturb(traj, rng)
         if rng.random() < 0.3:
-            traj.transitions_between_sites(structure, species, **kw)      # asked twice: the second answer is judged
-    tr = traj.transitions_between_sites(structure, species, **kw)
+            transitions(traj, structure, species, **kw)      # asked twice: the second answer is judged
+    tr = transitions(traj, structure, species, **kw)
     rec['hist'] = hist_of(tr.states, tr.inner_states)
     return rec, tr
 
@@ -244,7 +244,7 @@ def make_auto_case(rng, b, fam, orient, close=False, N=N_DEFAULT):
     if not margin_ok:
         return None
     try:
-        tr = traj.transitions_between_sites(structure, 'Li', site_radius=None, site_inner_fraction=1.0)
+        tr = transitions(traj, structure, 'Li', site_radius=None, site_inner_fraction=1.0)
         rec['hist'] = hist_of(tr.states, tr.inner_states)
     except ValueError as e:
         if 'too close' in str(e):
